@@ -14,6 +14,15 @@
     Instance(Start, NULL, File_Close, NULL) : stop = File_Close;  with(f in S) = the for loop of `with_in`, clause by clause
   (section "The `with` construct": `execStmt`, source expressions with side effects, break / continue / exception)
 
+  `Process` (src/File.c, Process_*: the second Stream class of the same file) is the same code over `popen` / `pclose`:
+  the translator checks that every Process_<X> except Process_New IS File_<X> under the renaming Process_→File_,
+  p->proc→f->file, popen→fopen, pclose→fclose (CelloGen.File.procSameAsFile), so the wrappers below serve both kinds — for a
+  Process the fields `fopen` / `fclose` of the abstract stdio stand for popen / pclose (`pclose` answers "failed" for every
+  non-zero wait status) and `Cfg` holds the two facts fix 51c301c established about Process_Close.  What differs:
+    Process_New : p->proc = NULL;  Process_Open(self, args[0], args[1])     (always opens; fewer than two arguments raise
+                  IndexOutOfBoundsError before popen is reached)                                               → `procNew`
+  and the reference library for pipes (`pipeIO`: a command is `true`, `false`, or `cat` of an input / into a sink).
+
   The File object is `Option Handle` (`none` = the FILE* is NULL).  Every wrapper returns the new library state, the
   new object, the outcome and **the list of stdio calls it made**; the properties of C20 are statements about
   these call lists.  Core Lean only (the driver links this file).
@@ -139,6 +148,15 @@ def fileNew (cfg : Cfg) (l : σ) (args : Option (Nat × Mode)) : R σ Unit :=
   match args with
   | none => ⟨l, none, .ok (), []⟩
   | some (file, m) => fileOpen io cfg l none file m
+
+/-- Process_New: `p->proc = NULL; Process_Open(self, get(args, $I(0)), get(args, $I(1)))` — no test of `len(args)`: it
+    always opens.  `none` = fewer than two constructor arguments: `get` on the argument tuple raises
+    IndexOutOfBoundsError before Process_Open is entered (no popen, nothing held).  Process_Open is File_Open over
+    popen / pclose (`io.fopen` / `io.fclose`). -/
+def procNew (cfg : Cfg) (l : σ) (args : Option (Nat × Mode)) : R σ Unit :=
+  match args with
+  | none => ⟨l, none, .raised .IndexOutOfBoundsError, []⟩
+  | some (cmd, m) => fileOpen io cfg l none cmd m
 
 /-- File_Seek -/
 def fileSeek (l : σ) (f : Option Handle) (off : Int) (wh : Whence) : R σ Unit :=
@@ -304,6 +322,8 @@ inductive MOp where
   | new (args : Option (Nat × Mode))     -- `new(File)` / `new(File, name, access)` under a name that is free
   | new1 (file : Nat)                    -- `new(File, name)`: File_New's `get(args, $I(1))` on a one-element tuple raises
                                          -- IndexOutOfBoundsError before File_Open is entered
+  | pnew (args : Option (Nat × Mode))    -- `new(Process, cmd, access)` under a name that is free (`none`: fewer than two
+                                         -- arguments): Process_New always opens
   | del                                  -- `del`: File_Del, then the object is gone
   | op (op : Op)                         -- any operation on an existing object
   | copy (src : Nat)                     -- `copy(src)` bound to a name that is free: File has no Copy instance, so
@@ -343,6 +363,12 @@ def Multi.stepR (cfg : Cfg) (s : Multi σ) (o : Nat) : MOp → Option (R σ Val 
     match lookup o s.objs with
     | some _ => none
     | none => some (⟨s.lib, none, .raised .IndexOutOfBoundsError, []⟩, false)   -- no stdio call, no object
+  | .pnew args =>
+    match lookup o s.objs with
+    | some _ => none
+    | none =>
+      let r : R σ Val := (procNew io cfg s.lib args).val (fun _ => .unit)
+      some (r, match r.out with | .ok _ => true | _ => false)
   | .del =>
     match lookup o s.objs with
     | none => none
@@ -838,6 +864,106 @@ def refIO : Stdio Ref where
   vfscanfInt := Ref.vfscanfInt
   vfscanfWs := Ref.vfscanfWs
 
+/-! ### Reference library for pipes: what `popen` / `pclose` and stdio on a pipe do for the commands the harness runs
+
+  Commands (the `file` argument of `fopen`, which for a Process is popen's command): 0 = `true`, 1 = `false`,
+  10+k = `cat` — reading mode: `cat <input k>` (the bytes of input k come through the pipe), writing mode: `cat > <sink k>`.
+  popen accepts the modes "r" and "w" only (anything else: NULL, EINVAL).  pclose answers the command's wait status: only
+  `false` ends with a non-zero one.  A pipe cannot seek: fseek fails, ftell answers -1.  Transfers in the direction the pipe
+  was not opened for fail.  (The harness reads an input pipe to its end before the real pclose, so that `cat` is never
+  killed by SIGPIPE; writes go only to `cat` sinks.) -/
+
+def cmdTrue : Nat := 0
+def cmdFalse : Nat := 1
+def cmdCat : Nat := 10
+def nPipeIn : Nat := 4
+
+structure PStream where
+  cmd : Nat
+  mode : Mode
+  data : List Byte      -- reading mode: what the command prints; writing mode: what it has been sent so far
+  pos : Nat             -- reading mode: bytes delivered
+  eof : Bool
+deriving DecidableEq, Repr, Inhabited
+
+structure PRef where
+  inputs : List (Nat × List Byte)       -- the input files of `cat`
+  streams : List (Handle × PStream)
+  next : Handle
+deriving DecidableEq, Repr, Inhabited
+
+def PRef.init : PRef := ⟨[], [], 1⟩
+
+def cmdKnown (c : Nat) : Bool := c = cmdTrue || c = cmdFalse || (cmdCat ≤ c && c < cmdCat + nPipeIn)
+
+def PRef.setStream (l : PRef) (h : Handle) (s : PStream) : PRef := { l with streams := insert h s l.streams }
+
+namespace PRef
+
+/-- popen -/
+def popen (l : PRef) (c : Nat) (m : Mode) : PRef × Option Handle :=
+  if !(m = .r || m = .w) || !cmdKnown c then (l, none)
+  else
+    let out : List Byte := if m = .r && cmdCat ≤ c then (lookup (c - cmdCat) l.inputs).getD [] else []
+    (⟨l.inputs, insert l.next ⟨c, m, out, 0, false⟩ l.streams, l.next + 1⟩, some l.next)
+
+/-- pclose: `true` = wait status 0 -/
+def pclose (l : PRef) (h : Handle) : PRef × Bool :=
+  match lookup h l.streams with
+  | none => (l, false)
+  | some s => ({ l with streams := erase h l.streams }, s.cmd ≠ cmdFalse)
+
+def fseek (l : PRef) (_ : Handle) (_ : Int) (_ : Whence) : PRef × Bool := (l, false)      -- ESPIPE
+def ftell (l : PRef) (_ : Handle) : PRef × Option Nat := (l, none)                        -- ESPIPE
+def fflush (l : PRef) (h : Handle) : PRef × Bool := (l, (lookup h l.streams).isSome)
+
+def feof (l : PRef) (h : Handle) : PRef × Bool :=
+  match lookup h l.streams with
+  | none => (l, true)
+  | some s => (l, s.eof)
+
+def fread (l : PRef) (h : Handle) (size : Nat) : PRef × Nat × List Byte :=
+  match lookup h l.streams with
+  | none => (l, 0, [])
+  | some s =>
+    if size = 0 || s.mode ≠ .r then (l, 0, [])
+    else
+      let rest := s.data.drop s.pos
+      if size ≤ rest.length then (l.setStream h { s with pos := s.pos + size }, 1, rest.take size)
+      else (l.setStream h { s with pos := s.pos + rest.length, eof := true }, 0, rest)
+
+def fwrite (l : PRef) (h : Handle) (d : List Byte) : PRef × Nat :=
+  match lookup h l.streams with
+  | none => (l, 0)
+  | some s =>
+    if d.length = 0 || s.mode ≠ .w then (l, 0)
+    else (l.setStream h { s with data := s.data ++ d }, 1)
+
+def vfprintf (l : PRef) (h : Handle) (t : List Byte) : PRef × Int :=
+  match lookup h l.streams with
+  | none => (l, -1)
+  | some s =>
+    if s.mode ≠ .w then (l, -1)
+    else if t.length = 0 then (l, 0)
+    else ((fwrite l h t).1, t.length)
+
+end PRef
+
+/-- the reference pipe library as an instance of the abstract stdio: `fopen` is popen, `fclose` is pclose (scan_from on an
+    open pipe is not modelled: neither side executes it) -/
+def pipeIO : Stdio PRef where
+  fopen := PRef.popen
+  fclose := PRef.pclose
+  fseek := PRef.fseek
+  ftell := PRef.ftell
+  fflush := PRef.fflush
+  feof := PRef.feof
+  fread := PRef.fread
+  fwrite := PRef.fwrite
+  vfprintf := PRef.vfprintf
+  vfscanfInt := fun l _ => (l, none)
+  vfscanfWs := fun l _ => l
+
 /-! ### sequences of writes and reads (the chunkings of C20) -/
 
 section Chunks
@@ -935,11 +1061,34 @@ def Call.show : Call → String
 
 def showCalls (cs : List Call) : String := if cs.isEmpty then "-" else ",".intercalate (cs.map Call.show)
 
+/-- the same for a Process: `fopen` / `fclose` are popen / pclose, pipe handles are written `p<id>` -/
+def Fn.pname : Fn → String
+  | .fopen => "popen" | .fclose => "pclose" | fn => fn.name
+
+def Call.showP : Call → String
+  | .fopen _ _ (some h) => s!"popen:p{h}"
+  | .fopen _ _ none => "popen:fail"
+  | .on fn h => s!"{fn.pname}:p{h}"
+  | .onNull fn => s!"{fn.pname}:NULL"
+
+def showCallsP (cs : List Call) : String := if cs.isEmpty then "-" else ",".intercalate (cs.map Call.showP)
+
 /-- which stdio function each `File_*` wrapper of src/File.c calls first (compared with the table the translator
     extracts from the source, in the translator's (alphabetical) order: C20_guard_table) -/
 def modelledWrappers : List (String × List String) :=
   [("File_Close", ["fclose"]), ("File_EOF", ["feof"]), ("File_Flush", ["fflush"]), ("File_Format_From", ["vfscanf"]),
    ("File_Format_To", ["vfprintf"]), ("File_Read", ["fread", "feof"]), ("File_Seek", ["fseek"]), ("File_Tell", ["ftell"]),
    ("File_Write", ["fwrite"])]
+
+/-- the same table for the `Process_*` wrappers (C20_process_guard_table) -/
+def modelledProcWrappers : List (String × List String) :=
+  [("Process_Close", ["pclose"]), ("Process_EOF", ["feof"]), ("Process_Flush", ["fflush"]), ("Process_Format_From", ["vfscanf"]),
+   ("Process_Format_To", ["vfprintf"]), ("Process_Read", ["fread", "feof"]), ("Process_Seek", ["fseek"]), ("Process_Tell", ["ftell"]),
+   ("Process_Write", ["fwrite"])]
+
+/-- the functions that are the same text in both classes (all but the constructor) -/
+def sharedWrappers : List String :=
+  ["Process_Close", "Process_Del", "Process_EOF", "Process_Flush", "Process_Format_From", "Process_Format_To", "Process_Open",
+   "Process_Read", "Process_Seek", "Process_Tell", "Process_Write"]
 
 end Cello.File
